@@ -183,7 +183,7 @@ def gen_ops(rng: random.Random, dists):
                 for p in rng.sample(params, min(len(params), 2)):
                     pairs.append([p, f"W{next(fresh)}"])
             ops.append(["subs", pairs])
-        elif r < 0.88:
+        elif r < 0.86:
             if rng.random() < 0.5:
                 nm = f"n{next(fresh)}" if rng.random() < 0.93 else rng.choice(names)
                 lv = rng.choice(LEVELS) if rng.random() < 0.9 else "XYZ"
@@ -195,11 +195,14 @@ def gen_ops(rng: random.Random, dists):
                 extra = gen_dists(rng, prefix=f"a{k}_", maxn=3)
                 ops.append(["addrvs", extra])
                 names = names + [n for d in extra for n in d["names"]]
-        elif r < 0.93:
+        elif r < 0.89:
             ops.append(["create"])
         else:
-            k = rng.randint(0 if rng.random() < 0.1 else 1, min(4, len(pool)))
-            ops.append(["distget", rng.randrange(6), rng.sample(pool, k)])
+            # JointNormalDistribution[...]: the k-th joint distribution of the current state, indexed by the names
+            # selected by the mask (plus, rarely, a name it does not have)
+            mask = [rng.random() < 0.55 for _ in range(6)]
+            extra = [rng.choice(pool)] if rng.random() < 0.1 else []
+            ops.append(["distget", rng.randrange(6), mask, extra])
     return ops
 
 
@@ -492,6 +495,9 @@ def run_ops(case, drv):
     check_matrix(rvs, mon, "initial")
     for op in case["ops"]:
         kind = op[0]
+        if len(rvs.names) > 14:
+            tags.append("state-too-large-stopped")
+            break
         tags.append(f"op:{kind}")
         old = rvs
         w_old = wire_rvs(old)
@@ -538,9 +544,11 @@ def run_ops(case, drv):
             elif kind == "distget":
                 if len(old) == 0:
                     continue
-                d = old[op[1] % len(old)]
-                if not isinstance(d, JointNormalDistribution):
+                joint = [d for d in old if isinstance(d, JointNormalDistribution)]
+                if not joint:
                     continue
+                d = joint[op[1] % len(joint)]
+                op = ["distget", op[1], [n for n, m_ in zip(d.names, op[2]) if m_] + list(op[3])]
                 req = ["distget", wire_dist(d), op[2]]
                 res = d[list(op[2])]
                 code = ["ok", wire_dist(res)]
